@@ -55,9 +55,12 @@ class PackageLoader(BaseLoader):
     def _resolve_path(self, template_name: str) -> Traversable:
         template_path = Path(template_name)
 
+        if not template_path.name:
+            raise TemplateNotFoundError(template_name)
+
         # Don't build a path that escapes package/package_path.
-        # Does ".." appear in template_name?
-        if os.path.pardir in template_path.parts:
+        # Does ".." appear in template_name, or is it absolute?
+        if os.path.pardir in template_path.parts or template_path.is_absolute():
             raise TemplateNotFoundError(template_name)
 
         # Add suffix self.ext if template name does not have a suffix.
@@ -66,9 +69,13 @@ class PackageLoader(BaseLoader):
 
         for path in self.paths:
             source_path = path.joinpath(str(template_path))
-            if source_path.is_file():
-                # MyPy seems to think source_path has `Any` type :(
-                return source_path  # type: ignore
+            try:
+                if source_path.is_file():
+                    # MyPy seems to think source_path has `Any` type :(
+                    return source_path  # type: ignore
+            except OSError:
+                # For example, a name that is too long for the file system.
+                continue
 
         raise TemplateNotFoundError(template_name)
 
